@@ -335,6 +335,56 @@ def lemma_ring_step(case):
     finally:
         reset_table()
 
+
+# ---------------------------------------------------------------------------
+# C13
+
+
+def _tok(s):
+    """independent tokeniser for well-formed SELFIES: bracketed symbols and dots"""
+    return re.findall(r"\[[^\[\]]*\]|\.", s)
+
+
+def _dec(x, **kw):
+    try:
+        with warnings.catch_warnings():
+            warnings.simplefilter("ignore")
+            return ("ok", sf.decoder(x, **kw))
+    except sf.DecoderError:
+        return ("DecoderError",)
+    except Exception as ex:  # noqa
+        return ("exc", type(ex).__name__)
+
+
+def c13_nop(case):
+    if not set_table(case.get("table")):
+        return ok("table rejected")
+    try:
+        x = case["selfies"]
+        y = "".join(t for t in _tok(x) if t != "[nop]")
+        a = bool(case.get("attribute"))
+        r1, r2 = _dec(x, attribute=a), _dec(y, attribute=a)
+        if r1 != r2:
+            return bad("C13:differs", "decoder(%r) -> %s but without [nop] decoder(%r) -> %s (attribute=%s, table %s)"
+                       % (x, str(r1)[:120], y, str(r2)[:120], a, _short(case.get("table"))))
+        return ok()
+    finally:
+        reset_table()
+
+
+def c13_padding(case):
+    reset_table()
+    x = case["selfies"]
+    vocab = sorted(set(_tok(x)) | {"[nop]", "."})
+    stoi = {s: i for i, s in enumerate(vocab)}
+    itos = {i: s for s, i in stoi.items()}
+    e = sf.selfies_to_encoding(x, stoi, pad_to_len=case["pad"], enc_type=case["enc_type"])
+    back = sf.encoding_to_selfies(e, itos, enc_type=case["enc_type"])
+    r1, r2 = _dec(x), _dec(back)
+    if r1 != r2:
+        return bad("C13:padding", "decoder(%r) -> %s but padded %r -> %s" % (x, r1, back, r2))
+    return ok()
+
 # ---------------------------------------------------------------------------
 
 KINDS = {
@@ -343,6 +393,8 @@ KINDS = {
     "encoder_total": c09_encoder_total,
     "index": c16_index,
     "index_e2e": c16_end_to_end,
+    "nop_invisible": c13_nop,
+    "nop_padding": c13_padding,
     "state_fn": lemma_state_fn,
     "ring_step": lemma_ring_step,
 }
